@@ -91,6 +91,13 @@ fn check_typed_direct<A: Archetype>(rep: &mut Report, d: EntityDirectAny, minted
             if *r != d || e.archetype_id() != A::ARCHETYPE_ID {
                 rep.violate(&["C14"], "convert", format!("&EntityDirect<{name}> -> &EntityDirectAny changed the value"));
             }
+            let mut m = e;
+            {
+                let rm: &mut EntityDirectAny = (&mut m).into();
+                if *rm != d {
+                    rep.violate(&["C14"], "convert", format!("&mut EntityDirect<{name}> -> &mut EntityDirectAny changed the value"));
+                }
+            }
             if EntityDirect::<A>::from_any(d) != e || h64(&EntityDirect::<A>::from_any(d)) != h64(&e) {
                 rep.violate(&["C14"], "convert", "direct from_any and try_from disagree".into());
             }
